@@ -1,12 +1,49 @@
 /-
 C01 — the parser accepts exactly the RFC 8259 JSON texts.
 Property theorems only; helper lemmas live in `Ajson/Proofs`.
+
+Main theorem: `C01_accepts_exactly` — for EVERY byte string, the model of `Unmarshal` (the table-driven loop over the
+regenerated transition table, the sub-scanners, `newNode` on the heap, the end-of-input test) returns a tree iff the
+table-free reference parser `Spec.parseRef`, written from the RFC 8259 grammar, accepts it: one value with optional surrounding
+whitespace and nothing after it. The proof is an induction along the reference parser: each token is matched by a step of the
+loop (Proofs/DecodeSim), each way of failing by a failing or non-accepting run (Proofs/DecodeErrSteps, DecodeSound); the
+string, number and literal scanners of the table are proved equal to the grammar's scanners (Proofs/StringEquiv, NumberEquiv,
+WordEquiv) from closed forms of the table rows that are re-proved against the current source on every run (Proofs/TableRows).
+Not proved: that the error *offset* is the first offending byte (the `ref` probe stream compares it on every short string).
 -/
-import Ajson.Model.Decode
-import Ajson.Spec.Ref
+import Ajson.Proofs.DecodeSound
 
 namespace Ajson.Props.C01
-open Ajson
+open Ajson Ajson.Spec Ajson.Proofs
+
+/-- **acceptance**: `Unmarshal` returns a tree for exactly the complete RFC 8259 JSON texts -/
+theorem C01_accepts_exactly (data : Bytes) : (∃ h r, unmarshal data = .ok (h, r)) ↔ (∃ v, parseRef data = .ok v) :=
+  unmarshal_accepts_iff data
+
+/-- the same on any heap whose ids are ordered (every heap a session can reach by parsing), i.e. for `Unmarshal` called while other
+documents exist: completeness … -/
+theorem C01_complete_on_heap (h : Heap) (ho : HeapOrd h) (data : Bytes) (v : STree) (hp : parseRef data = .ok v) :
+    ∃ h' r, unmarshalIn h data = .ok (h', r) := unmarshalIn_complete h ho data v hp
+
+/-- … and soundness -/
+theorem C01_sound_on_heap (h : Heap) (ho : HeapOrd h) (data : Bytes) (h' : Heap) (r : Id) (hu : unmarshalIn h data = .ok (h', r)) :
+    ∃ v, parseRef data = .ok v := unmarshalIn_sound h ho data h' r hu
+
+/-- the table-driven string scanner agrees with the string grammar: same verdict, same closing quote, same error position -/
+theorem C01_string_scanner (σ : Int) (r : Bytes) (i : Nat) (h : nextSt σ 34 = Gen.sST) :
+    match scanStringBody r (i + 1) with
+    | .ok (r1, j) => stringLoop false (34 :: r) i σ = .ok ⟨34 :: r1, j - 1, -4, Gen.sST⟩ ∧ i + 2 ≤ j
+    | .error e => stringLoop false (34 :: r) i σ = .error (strErr r (i + 1) e) := string_scanner_equiv σ r i h
+
+/-- the table-driven number scanner stops exactly where the longest RFC 8259 number ends (when what follows may follow a
+value) and fails otherwise -/
+theorem C01_number_scanner (σ : Int) (c : UInt8) (bs : Bytes) (i : Nat) (hc : (c == 45 || isDigit c) = true)
+    (hσ : nextSt σ c = valueStart c) : NL σ (c :: bs) i = expect (scanNumber (c :: bs) i) :=
+  number_scanner_equiv σ c bs i hc hσ
+
+/-- non-vacuity: the reference parser accepts and rejects what it should (kernel evaluation) -/
+example : (parseRef "{\"a\":[1,2.5e-3,\"x\\u00e9\",true,null]} ".toUTF8.toList).toOption.isSome = true ∧
+    (parseRef "[],0".toUTF8.toList).toOption.isSome = false ∧ (parseRef "01".toUTF8.toList).toOption.isSome = false := by decide +kernel
 
 /-! ### Facts about the regenerated tables (re-proved on every run against the current source) -/
 
